@@ -198,6 +198,50 @@ func (c11) Run(c *fw.Case) {
 			vals = append(vals, rv)
 		}
 	}
+	if c.Idx%10 == 6 {
+		// slices of ONE Go type holding the same numbers in different spellings ([]json.Number{"1.0"} vs []json.Number{"1"}):
+		// a same-type fast path must still compare numbers, not text
+		n := 1 + r.IntN(4)
+		nums := make([]any, n)
+		for i := range nums {
+			nums[i] = json.Number(gen.Pick(r, gen.Numbers))
+		}
+		vals = vals[:0]
+		for k := 0; k < 6; k++ {
+			m := gen.Clone(nums).([]any)
+			switch {
+			case k >= 4:
+				m = nearMiss(r, m, 1).([]any)
+			case k >= 1:
+				m = gen.Respell(r, m).([]any)
+			}
+			typed := make([]json.Number, 0, len(m))
+			allNum := true
+			for _, e := range m {
+				if jn, ok := e.(json.Number); ok {
+					typed = append(typed, jn)
+				} else {
+					allNum = false
+				}
+			}
+			var v any = m
+			kind := "[]any(json.Number)"
+			if allNum && r.IntN(4) > 0 {
+				v, kind = typed, "[]json.Number"
+				if r.IntN(3) == 0 {
+					v, kind = map[string]any{"k": typed}, "map{[]json.Number}"
+				}
+			}
+			rv := &reprVal{val: v, model: m}
+			cs, err := canon.Of(v)
+			if err != nil {
+				continue
+			}
+			rv.canon = cs
+			rv.trace.Kinds = map[string]bool{kind: true}
+			vals = append(vals, rv)
+		}
+	}
 	if c.Idx%10 == 3 {
 		// aliasing inside one value: rows cut as prefixes of ONE backing array (s[:1], s[:2], ...), on both sides of the comparison;
 		// the two sides differ only beyond the shortest prefix, or not at all. (A memo or identity shortcut keyed by the data pointer
